@@ -163,17 +163,33 @@ def run(ctx, eng):
         if any(e.kind == 'catch' and 'StreamClosedError' in e.names
                for e in p.events) and p.exit != 'raise':
             h = cm.calls_to(p, '_handle_data_on_closed_stream')
-            if not h:
+            inl = [e for e in cm.calls_to(p, 'process_bytes')
+                   if cm.attr_chain(e.recv) == MGR]
+            if not h and not inl:
                 bad.append('closed-stream path without refill')
-            elif p.value != h[0].result:
+            elif h and p.value != h[0].result and not (
+                    p.value is not None and p.value[0] == 'tuple' and
+                    p.value[1] and h[0].result in cm._subterms(
+                        p.value[1][0])):
+                # (returned as they are, or as the first component of the
+                # pair the handler returns)
                 bad.append('the refill frames are not returned')
     ctx.ob('PAIR.refill', f3.qual, 'charged DATA on closed streams is '
            'refilled', charged > 0 and not bad, '; '.join(sorted(set(bad)))
            or 'ok', node=f3.node)
-    f4 = m.func(H + '_handle_data_on_closed_stream')
+    f4 = m.func(H + '_handle_data_on_closed_stream', required=False)
+    if f4 is not None:
+        paths4 = cm.normal_paths(eng.I.run(f4))
+    else:
+        # the helper is written out in the DATA handler: its paths are the
+        # handler's paths that met a closed stream
+        f4 = f3
+        paths4 = [p for p in cm.normal_paths(eng.I.run(f3)) if any(
+            e.kind == 'catch' and 'StreamClosedError' in e.names
+            for e in p.events)]
     bad = []
     n = 0
-    for p in cm.normal_paths(eng.I.run(f4)):
+    for p in paths4:
         n += 1
         pb = cm.calls_to(p, 'process_bytes')
         if len(pb) != 1 or cm.attr_chain(pb[0].recv) != MGR or \
